@@ -351,6 +351,7 @@ func (s *Server) checkProtocolVersion(clientVersion string, present bool) *Proto
 // cached field (and each redundantly build a describe batch).
 func (s *Server) ProtocolHash() string {
 	s.protocolHashOnce.Do(func() {
+		verifAt("server.protocolHash", s)
 		batch, meta := s.buildDescribeBatch()
 		batch.Release()
 		if v, ok := meta.GetValue(MetaProtocolHash); ok {
